@@ -18,7 +18,7 @@ RULE = ("E1: columns A,B,C with domains (2,3,2)/(3,2,2); data = every multiset o
         "data sets, seeds {0,1}, max_iter 1..4: observed-data log-likelihood (brute force over the latent) non-decreasing; "
         "no latent => equals MLE. non-trivial = distinct (data, node, parents) with an unseen parent configuration, an "
         "unseen declared state, or >=2 parents")
-BOUNDS = {"quick": "multisets of <=3 rows on domain (2,3,2) (454) and <=2 rows on (3,2,2) (90), 5 covering DAGs, 6 estimator configs; model.fit on all 25 DAGs x 6 variants for ~20 data sets per domain; EM 20 data sets x 5 structures x {2 seeds, explicit init_cpds} x max_iter 0..4 (latent cardinality 3 on every 4th)",
+BOUNDS = {"quick": "multisets of <=3 rows on domain (2,3,2) (454) and <=2 rows on (3,2,2) (90), 5 covering DAGs, 6 estimator configs; model.fit on all 25 DAGs x 6 variants for ~20 data sets per domain; EM 20 data sets x 8 structures (3 with two latent variables) x {2 seeds, explicit init_cpds} x max_iter 0..4 (latent cardinality 3 on every 4th)",
           "thorough": "multisets of <=4 rows; model.fit on all 25 DAGs for all data sets; EM latent cardinality 3"}
 EXHAUSTIVE = {"quick": True, "thorough": True}
 ASSUMPTIONS = ["plain str columns are not used (rejected by preprocess_data in the pinned pandas); int and categorical columns are",
@@ -46,6 +46,9 @@ def groups(tier, seed):
             out.append({"part": "fit", "dom": list(dom), "sets": [list(s) for s in pick[i:i + 5]]})
         out.append({"part": "update", "dom": list(dom), "sets": [list(s) for s in sets[5::max(1, len(sets) // 25)][:25]]})
     em_sets = [list(s) for k in (1, 2) for s in combinations_with_replacement(range(4), k)] + [[0, 1, 2], [0, 0, 3], [0, 3, 3, 1], [1, 2, 2, 2], [0, 1, 2, 3], [3, 3, 0, 0]]
+    for di in range(len(U4_DATA)):
+        for ab in (0, 1):
+            out.append({"part": "update4", "data": di, "ab": ab})
     for i, s in enumerate(em_sets):
         out.append({"part": "em", "set": s, "lcard": 2})
         if tier == "thorough" or i % 4 == seed % 4:
@@ -57,6 +60,8 @@ def run_group(g, tier):
     st = Stats()
     if g["part"] == "em":
         _em(st, g)
+    elif g["part"] == "update4":
+        _update4(st, g)
     else:
         for s in g["sets"]:
             {"est": _est, "fit": _fit, "update": _update}[g["part"]](st, g["dom"], s)
@@ -67,6 +72,8 @@ def replay(case):
     st = Stats()
     if case["part"] == "em":
         _em(st, case["g"])
+    elif case["part"] == "update4":
+        _update4(st, case["g"])
     else:
         {"est": _est, "fit": _fit, "update": _update}[case["part"]](st, case["dom"], case["set"])
     keys = ("site", "node", "dag", "config", "variant", "order", "nprev")
@@ -400,9 +407,89 @@ def _update(st, dom, idxs):
                         break
 
 
+# ------------------------------------------------------------------ fit_update with three parents
+U4_NAMES = ["A", "B", "C", "D"]
+U4_DOM = (2, 3, 2, 2)
+U4_DATA = [
+    [(0, 0, 0, 0), (1, 2, 1, 1), (0, 1, 0, 1)],
+    [(1, 0, 1, 0), (1, 0, 1, 1), (0, 2, 0, 0), (0, 2, 1, 1), (1, 1, 0, 0)],
+    [(a, b, c, (a + b + c) % 2) for a in range(2) for b in range(3) for c in range(2)],
+    [(0, 1, 1, 1)] * 2 + [(1, 1, 0, 0), (1, 2, 1, 0)],
+]
+
+
+def _update4(st, g):
+    """a node with THREE parents of different cardinalities whose previous CPD lists them in every order (rotations are not self-inverse)"""
+    import pandas as pd
+
+    from pgmpy.factors.discrete import TabularCPD
+    from pgmpy.models import BayesianNetwork
+
+    data = U4_DATA[g["data"]]
+    dom = U4_DOM
+    df = pd.DataFrame(data, columns=U4_NAMES)
+    pa_of = {0: [], 1: [0] if g["ab"] else [], 2: [], 3: [0, 1, 2]}
+    edges = [(U4_NAMES[p], U4_NAMES[v]) for v in range(4) for p in pa_of[v]]
+    prev = {}
+    for v in range(4):
+        tab = {}
+        for jx, j in enumerate(product(*[range(dom[p]) for p in pa_of[v]])):
+            w = [F(1 + (5 * k + 3 * jx + 7 * v) % 13) for k in range(dom[v])]
+            tab[j] = [x / sum(w) for x in w]
+        prev[v] = tab
+    st.states += 1
+    for po in permutations(pa_of[3]):
+        for nprev in (3, None):
+            case = {"part": "update4", "g": g, "site": "fit_update(3 parents)", "order": list(po), "nprev": nprev}
+            model = BayesianNetwork()
+            model.add_nodes_from(U4_NAMES)
+            model.add_edges_from(edges)
+            for v in range(4):
+                pa = list(po) if v == 3 else pa_of[v]
+                cols = []
+                for j in product(*[range(dom[p]) for p in pa]):
+                    a = dict(zip(pa, j))
+                    cols.append([float(x) for x in prev[v][tuple(a[p] for p in pa_of[v])]])
+                vals = np.array(cols).T.reshape(dom[v], -1)
+                kw = dict(evidence=[U4_NAMES[p] for p in pa], evidence_card=[dom[p] for p in pa]) if pa else {}
+                model.add_cpds(TabularCPD(U4_NAMES[v], dom[v], vals, state_names={U4_NAMES[x]: list(range(dom[x])) for x in [v] + pa}, **kw))
+            st.evals += 1
+            st.transitions += 1
+            st.nt((g["data"], g["ab"], po, nprev))
+            try:
+                model.fit_update(df, n_prev_samples=nprev)
+                model.check_model()
+            except Exception as ex:
+                st.violation("fit_update(3 parents)", "exception", case, repr(ex)[:300])
+                continue
+            n = F(nprev) if nprev is not None else F(len(data))
+            bad = None
+            for v in range(4):
+                cpd = model.get_cpds(U4_NAMES[v])
+                for j in product(*[range(dom[p]) for p in pa_of[v]]):
+                    rows_j = [r for r in data if all(r[p] == x for p, x in zip(pa_of[v], j))]
+                    for k in range(dom[v]):
+                        exp = (sum(1 for r in rows_j if r[v] == k) + n * prev[v][j][k]) / (len(rows_j) + n)
+                        got = cpd.get_value(**{U4_NAMES[v]: k, **{U4_NAMES[p]: x for p, x in zip(pa_of[v], j)}})
+                        st.compared += 1
+                        if abs(float(got) - float(exp)) > 1e-9:
+                            bad = f"P({U4_NAMES[v]}={k} | {dict(zip([U4_NAMES[p] for p in pa_of[v]], j))}) = {float(got):.6f}, closed form {float(exp):.6f}"
+                            break
+                    if bad:
+                        break
+                if bad:
+                    break
+            if bad:
+                st.violation("fit_update(3 parents)", "wrong-cpd", case, None, bad)
+            else:
+                st.outcome(("u4", g["data"], nprev))
+
+
 # ------------------------------------------------------------------ EM
 EM_STRUCT = {"L-root": [("L", "A"), ("L", "B")], "L-mid": [("A", "L"), ("L", "B")], "L-root+AB": [("L", "A"), ("L", "B"), ("A", "B")],
-             "L-leaf": [("A", "L"), ("B", "L"), ("A", "B")], "L-mid+AB": [("A", "L"), ("L", "B"), ("A", "B")]}
+             "L-leaf": [("A", "L"), ("B", "L"), ("A", "B")], "L-mid+AB": [("A", "L"), ("L", "B"), ("A", "B")],
+             # two latent variables: sharing a child, and one the parent of the other
+             "LM-share": [("L", "A"), ("M", "A"), ("M", "B")], "LM-chain": [("L", "M"), ("M", "A"), ("L", "B")], "LM-share2": [("L", "A"), ("M", "A"), ("L", "B"), ("M", "B")]}
 
 
 def _em_init(model, lcard):
@@ -410,8 +497,9 @@ def _em_init(model, lcard):
     from pgmpy.factors.discrete import TabularCPD
 
     out = {}
-    card = {"A": 2, "B": 2, "L": lcard}
-    for v in ["L"] + sorted(model.successors("L")):
+    card = {"A": 2, "B": 2, "L": lcard, "M": 2}
+    lats = sorted(model.latents)
+    for v in lats + sorted({c for l in lats for c in model.successors(l)} - set(lats)):
         pa = sorted(model.predecessors(v))
         ncol = int(np.prod([card[p] for p in pa])) if pa else 1
         raw = np.array([[1 + ((3 * i + 2 * j + len(v) + (v == "B")) % 5) for j in range(ncol)] for i in range(card[v])], dtype=float)
@@ -438,12 +526,14 @@ def _em(st, g):
             lls = []
             for k in (1, 2, 3, 4):
                 case = {"part": "em", "g": g, "site": "EM", "config": sname, "order": seed, "nprev": k}
-                model = BayesianNetwork(edges, latents={"L"})
+                lats = {"L", "M"} if sname.startswith("LM") else {"L"}
+                lcards = {"L": lcard, "M": 2} if len(lats) == 2 else {"L": lcard}
+                model = BayesianNetwork(edges, latents=lats)
                 st.evals += 1
                 st.transitions += 1
                 try:
                     kw = {"seed": seed} if seed != "init" else {"init_cpds": _em_init(model, lcard)}
-                    cpds = ExpectationMaximization(model, df).get_parameters(latent_card={"L": lcard}, max_iter=k, n_jobs=1, show_progress=False, **kw)
+                    cpds = ExpectationMaximization(model, df).get_parameters(latent_card=dict(lcards), max_iter=k, n_jobs=1, show_progress=False, **kw)
                 except Exception as ex:
                     st.violation("EM", "exception", case, repr(ex)[:300])
                     lls = None
@@ -457,10 +547,11 @@ def _em(st, g):
 
                 def loglik(cs):
                     ll = 0.0
+                    lnames = sorted(lcards)
                     for a, b in data:
                         tot = 0.0
-                        for l in range(lcard):
-                            asg = {"A": a, "B": b, "L": l}
+                        for ls in product(*[range(lcards[x]) for x in lnames]):
+                            asg = {"A": a, "B": b, **dict(zip(lnames, ls))}
                             p = 1.0
                             for c in cs:
                                 idx = tuple(c.name_to_no[v][asg[v]] for v in c.variables)
@@ -469,7 +560,7 @@ def _em(st, g):
                         ll += math.log(tot) if tot > 0 else -1e9
                     return ll
                 st.compared += 1
-                if bad or set(by) != {"A", "B", "L"}:
+                if bad or set(by) != {"A", "B"} | lats:
                     st.violation("EM", "invalid-parameters", case, bad or sorted(by), None)
                     lls = None
                     break
